@@ -66,6 +66,7 @@ class Stmt:
 class Gen:
     def __init__(self, rng, std="f2003", size=1.0, feats=None):
         self.r = rng
+        self.cyc_i = rng.randrange(1000)
         self.std = std
         self.size = size
         self.out = []
@@ -109,6 +110,12 @@ class Gen:
 
     def ch(self, xs):
         return self.r.choice(xs)
+
+    def cyc(self, xs):
+        """round-robin over a long list of alternatives, starting at a seed-dependent offset: every alternative
+        is reached after len(xs) draws across consecutive programs"""
+        self.cyc_i += 1
+        return xs[self.cyc_i % len(xs)]
 
     def p(self, x):
         return self.r.random() < x
@@ -309,7 +316,9 @@ class Gen:
 
     def simple_exec(self):
         """one simple executable statement: (text, kind)"""
-        k = self.r.randrange(24)
+        k = self.r.randrange(30)
+        if k >= 24:
+            k = 23          # the long list of less common statements gets a quarter of the draws
         if k < 8:
             return self.assign(), "assign"
         if k < 11:
@@ -344,8 +353,8 @@ class Gen:
             return "if (%s) %s" % (self.lexpr(0), kw), kw
         if k == 22:
             return "call %s(%s, %s)" % ("subOne", self.char_lit(), self.ch(NAMES_ARR) + "(1:nMax:2)"), "call"
-        if k == 23 and self.p(0.7):
-            return self.ch([
+        if k == 23 and self.p(0.85):
+            return self.cyc([
                 ("if (%s) 110, 120, 130" % self.rexpr(1), "arithmetic_if"),
                 ("go to 110", "goto"), ("goto 120", "goto"),
                 ("go to (110, 120, 130), %s" % self.ivar(), "computed_goto"),
